@@ -6,8 +6,10 @@
    language are the two section parameters [csize] and [truth] (None = CountResult::IgnoredFile).
    A path is (stem, extension id). Built-in languages: extension ids 1..9 (language id = extension
    id); extension 0 = no / unrecognised extension. A [langs] table is the [languages] section of
-   the configuration: extension id -> custom language id, first match (single-owner extensions;
-   two custom languages claiming one extension is D23 / C20, registered in HashMap order).
+   the configuration: extension id -> custom language id, first match. The registry registers the
+   definitions in name order and the last registration wins an extension, so a table in which two
+   definitions claim one extension is listed in descending name order (tools/gen_cache.py
+   wire_langs); for single-owner tables the order is immaterial.
    The configuration hash is the third section parameter [chash] (compute_config_hash: SHA-256 of
    the serialised table); the theorems assume it injective on tables, the run checks that different
    tables observed give different hashes. A stored hash [None] is a string that is no hash value.
